@@ -14,7 +14,10 @@ A *scenario* (the case JSON, self-contained) is
    "src_cls"/"dst_cls": "local"|"base",  "req": [token...], "shallow", "verify", "dix", "six",
    "rounds": [{"fails": [token...], "partial": [token...], "crash": n|null, "reset": bool,
                "delete": [token...], "req": [token...]}]}
-   ("dst_state": true = the destination odb gets a real hash State (sqlite), persisted across the rounds;
+   ("labels": {token: label} - the requested HashInfo of that id carries obj_name=label, as DVC sets it;
+    "dst_rot": {token: hex} - the (local-class) destination initially holds these bytes under the id with
+    mode 0o644: an unprotected copy that does not hash to its id, which status() re-hashes and removes;
+    "dst_state": true = the destination odb gets a real hash State (sqlite), persisted across the rounds;
     "dix"/"six": false | true (a real ObjectDBIndex, empty at the start, persisted across the rounds) |
    "noop" (ObjectDBIndexNoop); "vanish": [file tokens] - objects deleted from the SOURCE by the
    validate_status hook if status counted them new, i.e. between the status phase and the uploads, and
@@ -65,6 +68,8 @@ class Recorder:
         self.events = []  # ("put", oid, ok) | ("partial", oid) | ("drop", oid)
         self.snaps = []  # {oid: bytes} after every upload attempt
         self.depth = 0
+        self.phase = "status"  # -> "upload" once validate_status has run
+        self.status_drops = []  # objects status() removed from the destination (unvouched copies)
 
     def oid_of(self, path):
         parts = str(path).replace(os.sep, "/").split("/")
@@ -128,7 +133,10 @@ def faultfs_class():
                 return
             for p in [path] if isinstance(path, str) else list(path):
                 if os.path.lexists(p):
-                    rec.events.append(("drop", rec.oid_of(p)))
+                    if rec.phase == "status":
+                        rec.status_drops.append(rec.oid_of(p))
+                    else:
+                        rec.events.append(("drop", rec.oid_of(p)))
 
         def remove(self, path, *a, **kw):
             self._removing(path)
@@ -164,6 +172,18 @@ def faultfs_class():
 
 def store_bytes(path) -> dict:
     return {o: b for o, (b, _m) in impl.walk_store(path).items()}
+
+
+def effective_store(path, cls) -> dict:
+    """what a destination store vouches for at the start of a round.  ONE rule (os.stat + hashlib):
+    in a local-class store an unprotected copy (mode != 0o444) whose bytes do not hash to its id
+    counts as ABSENT - status() re-hashes and removes it; base-class stores: existence only."""
+    out = {}
+    for o, (b, mode) in impl.walk_store(path).items():
+        if cls == "local" and mode != 0o444 and not genuine(o, b):
+            continue
+        out[o] = b
+    return out
 
 
 def parse_listing(b: bytes):
@@ -257,6 +277,7 @@ class Scenario:
             os.makedirs(self.p_cache)
             self._plant(self.p_cache, case["cache"])
         self._plant(self.p_dst, case["dst"])
+        self._plant_rot()
         self.src0 = store_bytes(self.p_src)
         self.cache0 = store_bytes(self.p_cache) if self.has_cache else None
         self.dix = self.six = None
@@ -288,6 +309,10 @@ class Scenario:
         for t, v in objs.items():
             impl.plant(path, self.oid[t], self.bytes_of(t, v))
 
+    def _plant_rot(self):
+        for t, hx_ in (self.case.get("dst_rot") or {}).items():
+            impl.plant(self.p_dst, self.oid[t], bytes.fromhex(hx_), mode=0o644)
+
     def reset_dest(self):
         # remove the objects, keep the fan-out directories (rmdir is slow; empty ones are invisible)
         for d in os.listdir(self.p_dst):
@@ -295,6 +320,7 @@ class Scenario:
             for n in os.listdir(dp):
                 os.unlink(os.path.join(dp, n))
         self._plant(self.p_dst, self.case["dst"])
+        self._plant_rot()
         if self.dix is not None:
             self.dix.clear()
 
@@ -324,7 +350,8 @@ class Scenario:
                 os.unlink(p)
                 self.external = True
         ob = {"spec": rs, "external": self.external}
-        ob["dst_before"] = store_bytes(self.p_dst)
+        ob["dst_before_raw"] = store_bytes(self.p_dst)
+        ob["dst_before"] = effective_store(self.p_dst, case["dst_cls"])
         ob["dix_before"] = index_items(self.dix)
         ob["six_before"] = index_items(self.six)
         rec = Recorder(self.p_dst, [self.oid[t] for t in rs.get("fails") or []], rs.get("crash"))
@@ -337,7 +364,9 @@ class Scenario:
         dest = dcls(fs, self.p_dst, state=self.dst_state) if self.dst_state is not None else dcls(fs, self.p_dst)
         src = impl.make_odb(case["src_cls"], self.p_src)
         cache = impl.make_odb(case.get("cache_cls", "local"), self.p_cache) if self.has_cache else None
-        obj_ids = {HashInfo("md5", self.oid[t]) for t in ob["req"]}
+        labels = case.get("labels") or {}
+        obj_ids = {HashInfo("md5", self.oid[t], obj_name=labels[t]) if t in labels else HashInfo("md5", self.oid[t])
+                   for t in ob["req"]}
         ob["req_order"] = [h.value for h in obj_ids]
         seen = []
         dirorder = []
@@ -348,6 +377,7 @@ class Scenario:
         def on_status(st):
             # runs exactly between the status phase and the uploads: a concurrent gc of the source
             seen.append(st)
+            rec.phase = "upload"
             new = {h.value for h in st.new}
             for o in vanish:
                 sp = os.path.join(self.p_src, o[:2], o[2:])
@@ -384,6 +414,7 @@ class Scenario:
             ob["status"] = None
         ob["crash"] = rec.calls if rec.aborted else None
         ob["events"] = rec.events
+        ob["status_drops"] = rec.status_drops
         ob["snaps"] = rec.snaps
         ob["dirorder"] = dirorder
         ob["putorder"] = [e[1] for e in rec.events if e[0] in ("put", "partial")]
@@ -983,7 +1014,63 @@ def gen_base(rng, prop):
         # protected (a concurrent writer's object); with a single writer it never is
         case["eperm"] = True
         notes.append("fail-kind:PermissionError")
+    if rng.random() < 0.4:
+        # requested ids carry a descriptive label (HashInfo.obj_name), as DVC sets it
+        toks = list(req) if rng.random() < 0.6 else [t for t in req if rng.random() < 0.5]
+        case["labels"] = make_labels(rng, case, toks)
+        notes.append("labels:" + ("all" if len(toks) == len(req) else "some" if toks else "none"))
     return case, notes + ["dest:" + dkind, "req:" + rkind]
+
+
+def make_labels(rng, case, toks):
+    out = {}
+    for t in toks:
+        if is_dir(t):
+            out[t] = rng.choice(["dir/", "data", "data/" + t.split(".")[0], "donn\u00e9es/\u65e5\u672c"])
+        else:
+            rps = [rp for lst in case["dirs"].values() for rp, f in lst if f == t]
+            out[t] = rng.choice(["data/" + (rps[0] if rps else t), t, "donn\u00e9es/" + t, "a label with spaces"])
+    return out
+
+
+ROT_UNSAFE = ("src-unparseable-dir", "src-missing-dir", "src-corrupt-dir", "cache-some-dirs")
+
+
+def query_tokens(case):
+    """tokens the status query of the scenario's request covers (listed files too when expanded)"""
+    q = list(case["req"])
+    if not case["shallow"]:
+        for t in case["req"]:
+            if is_dir(t):
+                q += [f for _, f in case["dirs"][t]]
+    return list(dict.fromkeys(q))
+
+
+def add_rot(rng, case, notes, prop):
+    """pre-seed a LOCAL destination (no index) with 1-2 damaged, not write-protected copies (mode
+    0o644) of objects the status query covers: status() re-hashes and removes them, they count as
+    absent.  C04: files that no directory present in the destination lists (the effective destination
+    stays closed); C11: any queried id, the requested directory object itself included."""
+    if case["dst_cls"] != "local" or case["dix"] or any(n in ROT_UNSAFE for n in notes):
+        return False
+    q = query_tokens(case)
+    if prop == "C04":
+        cands = [t for t in q if not is_dir(t) and t not in case["dst"]]
+    else:
+        cands = list(q)
+    if not cands:
+        return False
+    rot = {}
+    for t in rng.sample(cands, min(len(cands), rng.choice([1, 1, 2]))):
+        if is_dir(t):
+            b = bytes.fromhex(_listing_hex(case["files"], case["dirs"][t]))[:-1] or b"["
+        else:
+            g = bytes.fromhex(case["files"][t])
+            b = g[:-1] if len(g) > 1 and rng.random() < 0.5 else g + b"#rot"
+        rot[t] = b.hex()
+        case["dst"].pop(t, None)
+    case["dst_rot"] = rot
+    return True
 
 
 def closed_req(case, d):
@@ -1360,6 +1447,38 @@ def builtin_corpus(prop):
         out.append({"prop": prop, "files": f, "dirs": d, "src": src_rot, "cache": None, "dst": {},
                     "req": ["d0.dir", "f0", "f1", "f3"], "shallow": True, "verify": True, "src_cls": "local",
                     "dst_cls": cls, "dix": False, "six": False, "dst_state": True,
+                    "rounds": [{"fails": [], "crash": None, "reset": True},
+                               {"fails": [], "crash": None, "reset": False}]})
+    # seeded changes C04/r5m1, C11/r5m2: requested ids that carry a label (HashInfo.obj_name) are the
+    # same ids: the shared-file failure and the twins scenario, labelled
+    lab = {"d0.dir": "dir/", "d1.dir": "data/more", "f0": "data/a", "f1": "data/sub/b", "f2": "donn\u00e9es/\u00e9"}
+    ftw = {"f0": hx(b"slash twin"), "f1": hx(b"backslash twin"), "f2": hx(b"deep slash"), "f3": hx(b"deep backslash")}
+    dtw = {"d0.dir": [["sub/data", "f0"], ["sub\\data", "f1"], ["z", "f2"]],
+           "d1.dir": [["a/b/c", "f2"], ["a\\b\\c", "f3"]]}
+    for cls in ("local", "base"):
+        out.append({"prop": prop, "files": f, "dirs": d, "src": allsrc, "cache": None, "dst": {},
+                    "req": closed_req, "shallow": True, "verify": False, "src_cls": "local", "dst_cls": cls,
+                    "dix": cls == "base", "six": False, "labels": lab,
+                    "rounds": [{"fails": ["f1"], "crash": None, "reset": True},
+                               {"fails": [], "crash": None, "reset": False}]})
+        out.append({"prop": prop, "files": ftw, "dirs": dtw, "src": {t: None for t in list(ftw) + list(dtw)},
+                    "cache": None, "dst": {}, "req": ["d0.dir", "d1.dir", "f0", "f1", "f2", "f3"],
+                    "shallow": True, "verify": False, "src_cls": "base", "dst_cls": cls, "dix": False, "six": False,
+                    "labels": {"d0.dir": "tw", "f0": "tw/sub/data", "f1": "tw/sub\\data", "f2": "tw/z", "f3": "x"},
+                    "rounds": [{"fails": ["f1" if cls == "local" else "f2"], "crash": None, "reset": True},
+                               {"fails": [], "crash": None, "reset": False}]})
+    # seeded change C11/r5m1: a local destination holds a damaged, NOT write-protected copy of the
+    # listed file f1: status() re-hashes and removes it, f1 counts as absent and is uploaded
+    out.append({"prop": prop, "files": f, "dirs": d, "src": allsrc, "cache": None, "dst": {"f3": None},
+                "dst_rot": {"f1": hx(b"bet")}, "req": ["d0.dir", "f0", "f1"], "shallow": True, "verify": False,
+                "src_cls": "base", "dst_cls": "local", "dix": False, "six": False,
+                "rounds": [{"fails": [], "crash": None, "reset": True},
+                           {"fails": [], "crash": None, "reset": False}]})
+    if prop == "C11":
+        out.append({"prop": prop, "files": f, "dirs": d, "src": allsrc, "cache": None, "dst": {"f0": None},
+                    "dst_rot": {"f3": hx(b"gamma#rot"), "d0.dir": hx(b'[{"md5": "')}, "req": ["f3", "d0.dir", "f0", "f1"],
+                    "shallow": True, "verify": True, "src_cls": "local", "dst_cls": "local", "dix": False, "six": False,
+                    "labels": {"f3": "loose/f3"},
                     "rounds": [{"fails": [], "crash": None, "reset": True},
                                {"fails": [], "crash": None, "reset": False}]})
     if prop == "C04":
